@@ -4,10 +4,13 @@ import (
 	"errors"
 	"fmt"
 	"math"
+	"net/http"
 	"strconv"
 
+	"github.com/issue9/mux/v9"
 	"github.com/issue9/mux/v9/types"
 
+	"verifharness/mon"
 	"verifharness/ref"
 )
 
@@ -47,7 +50,11 @@ func c20Compare(c *Ctx, ctx *types.Context, m map[string]string, trail *[]string
 		return bad("Count()=%d, %d parameters were captured", ps.Count(), len(m))
 	}
 	seen := map[string]string{}
-	ps.Range(func(k, v string) { seen[k] = v })
+	visits := 0
+	ps.Range(func(k, v string) { seen[k] = v; visits++ })
+	if visits != len(m) {
+		return bad("Range made %d visits for %d parameters (a pair visited twice or skipped)", visits, len(m))
+	}
 	if fmtParams(seen) != fmtParams(m) {
 		return bad("Range visits %s, captured %s", fmtParams(seen), fmtParams(m))
 	}
@@ -127,6 +134,28 @@ func c20Compare(c *Ctx, ctx *types.Context, m map[string]string, trail *[]string
 	return true
 }
 
+// c20Traffic serves a few requests through a stand-alone router and through a group (one of them panics and is recovered).
+func c20Traffic(r *ref.R) {
+	env := mon.NewEnv()
+	env.RecordMW = false
+	rec := mux.WithRecovery(func(w http.ResponseWriter, v any) { w.WriteHeader(500) })
+	rt := env.NewRouter("solo", rec)
+	h := env.NewHnd(mon.KRoute, "/s/{a}/{b}")
+	rt.Handle("/s/{a}/{b}", h, nil, "GET")
+	boom := env.NewHnd(mon.KRoute, "/boom/{a}")
+	boom.Panic = &mon.PanicSpec{Value: "x"}
+	rt.Handle("/boom/{a}", boom, nil, "GET")
+	g := env.NewGroup(rec)
+	gr := g.New("in-group", mux.NewPathVersion("ver", "v1"))
+	gr.Handle("/g/{id}", env.NewHnd(mon.KRoute, "/g/{id}"), nil, "GET")
+	for k := r.Range(1, 4); k > 0; k-- {
+		mon.Do(rt, mon.Req{Method: "GET", Path: "/s/1/2"})
+		mon.Do(rt, mon.Req{Method: "GET", Path: "/boom/1"})
+		mon.Do(g, mon.Req{Method: "GET", Path: "/v1/g/7"})
+		mon.Do(g, mon.Req{Method: "GET", Path: "/nothing"})
+	}
+}
+
 func runC20(c *Ctx) {
 	r := c.R
 	var trail []string
@@ -181,6 +210,18 @@ func runC20(c *Ctx) {
 				c.Violate(fmt.Sprintf("a context obtained from the pool is not empty: Count=%d Path=%q RouterName=%q", ctx.Count(), ctx.Path, ctx.RouterName()), map[string]any{"ops": trail})
 				return
 			}
+		case x == 18:
+			// contexts are pooled across the whole process: after real traffic through a Router and a Group
+			// (incl. a recovered panic) two contexts taken from the pool are distinct objects and start empty
+			c20Traffic(r)
+			a, b := types.NewContext(), types.NewContext()
+			c.Class("pool_after_router_and_group_traffic")
+			if a == b || a.Count() != 0 || b.Count() != 0 || a.Path != "" || a.RouterName() != "" || a.Node() != nil || b.Node() != nil {
+				c.Violate(fmt.Sprintf("after router/group traffic the pool hands out the same or a non-empty context: same=%v count=%d/%d router=%q", a == b, a.Count(), b.Count(), a.RouterName()), map[string]any{"ops": trail})
+				return
+			}
+			a.Destroy()
+			b.Destroy()
 		default:
 			// nothing: compare again
 		}
